@@ -19,24 +19,31 @@ degrees are `DSymData.mPartial`, for a plain D-set the default `m` of the trait
   `morphismPinned` is the text of the pinned tree (degrees compared only while a neighbour
   is still unassigned, and `self.m` used for both chambers); it is kept for the documented
   counter-example (`Props/C04.lean`, `d3_pinned_accepts_wrong_map`).
-* `Partition<usize>` (union–find in /repo/src/util/partitions.rs) is modelled by its
-  *class table* `Part`: a finite list of (element, class label) pairs for the elements that
-  are not alone in their class; `find x` is the label (an element never seen is its own
-  class: `Partition::new()` is the empty table), `unite(a, b)` relabels the class of `b` with
-  the label of `a` (`find_unite` in Proofs/MorphismFold.lean: afterwards
-  `find x = if find x = find b then find a else find x`).
-  The Rust structure returns a rank-dependent representative instead; `fold`, `is_minimal`
-  use `find` only in the test `p.find(&d) != p.find(&e)`, and `minimal_image` uses the
-  representative `e = p.find(&d)` only (a) as a key into `src2img` (any fixed member of the
-  class works as the key) and (b) as the chamber whose operations and degrees describe the
-  class in the quotient (`img2src`).  (b) is independent of the member chosen because the
-  partition is a degree-respecting congruence (`Props/C04.lean`, `fold_congruence`), and the
-  numbering of the classes is by first occurrence of a member in 1..size, which does not
-  mention representatives at all.  So the observable result does not depend on WHICH
-  representative `find` returns; the differential run compares `minimal_image` exactly
-  (token by token) all the same.
+* `Partition<usize>` (union–find in /repo/src/util/partitions.rs) is the EXACT model of
+  property C20 (`Model/Partition.lean`, `GPart`: interning `HashMap` + `elements`, the two loops
+  of `root_index` with path compression, union by rank, `find` = `elements[root]`): `foldUF`,
+  `isMinimalUF`, `foldAllUF`, `numberLoopUF` and `minimalImage` re-state the Rust text statement
+  by statement on it — `p0.clone()` is a value copy, `p.find(&d)` returns the new state of the
+  `UnsafeCell` together with the answer (so interning and path compression done by a `find` are
+  kept exactly where the Rust code keeps them: inside the clone made by `fold`, dropped when
+  `fold` answers `None`), `p.unite(&d, &e)` links the roots by rank.  The representative
+  `p.find(&d)` that `minimal_image` writes into `img2src` is therefore the representative the
+  code computes, and the raw partition returned by `fold` (representatives, `classes`) is
+  compared token by token with the implementation.  In `Model/Partition.lean` `Outcome.err`
+  means "root walk out of fuel" (the Rust loop would still be running); here that is reported
+  as `Outcome.panic` (`ufFind`, `ufUnite`), `Outcome.err` being `None`.  Props/C20.lean proves
+  it never happens on a partition reached from `Partition::new()`.
+* the *class table* `Part` (a finite list of (element, class label) pairs; `find x` is the label,
+  `unite(a, b)` relabels the class of `b` with the label of `a`) and the functions `fold`,
+  `isMinimal`, `foldAll`, `numberLoop` on it are NOT run against the implementation any more:
+  they are the abstract semantics used by the proofs.  `Proofs/MorphismUF.lean` proves, for
+  ALL inputs, that the union–find functions simulate them (`foldUF_sim`: same `Some`/`None`/
+  panic answer and the same same-class relation; `isMinimalUF_eq`: the same Boolean;
+  `foldAllUF_sim`; `numberLoopUF_eq`: the numbering loop on the union–find is the numbering loop
+  on the table of its representatives), restated in Props/C04.lean §13.
 -/
 import DSymVerif.Model.DSym
+import DSymVerif.Model.Partition
 
 namespace DSymVerif.Mor
 open DSymVerif.DS
@@ -152,7 +159,8 @@ def automorphisms (a : MV) : Outcome (List (Array Nat)) := autLoop (morphism a a
 def automorphismsPinned (a : MV) : Outcome (List (Array Nat)) :=
   autLoop (morphismPinned a a) a.elements
 
-/-! ### `Partition<usize>` as a class table, `fold`, `is_minimal` -/
+/-! ### abstract semantics: `Partition<usize>` as a class table, `fold`, `is_minimal`
+(specification device of the proofs; the functions compared with the code are the `…UF` ones below) -/
 
 /-- (element, class label) for every element that has been united with another one -/
 structure Part where
@@ -221,7 +229,7 @@ def isMinimalLoop (s : MV) : List Nat → Outcome Bool
 
 def isMinimal (s : MV) : Outcome Bool := isMinimalLoop s (s.elements.drop 1)
 
-/-! ### `minimal_image` -/
+/-! ### `minimal_image`: partition and numbering loop on the class table (abstract semantics) -/
 
 /-- `(2..=size).fold(Partition::new(), |p, d| ds.fold(&p, 1, d).unwrap_or(p))` -/
 def foldAll (s : MV) : List Nat → Part → Outcome Part
@@ -263,6 +271,112 @@ def numberLoop (p : Part) : List Nat → NumState → Outcome NumState
       | .err => .err
       | .panic => .panic
 
+/-! ### `Partition<usize>` as the union–find of /repo/src/util/partitions.rs (C20 model):
+`fold`, `is_minimal`, the partition and the numbering loop of `minimal_image`, exactly -/
+
+/-- the generic `Partition<T>` of C20 (`T = usize`) -/
+abbrev UF := DSymVerif.Part.GPart
+
+/-- `Partition::new()` -/
+def UF.new : UF := DSymVerif.Part.GPart.new
+
+/-- `p.find(&x)`: the answer and the new state behind the `UnsafeCell` (interning, path
+    compression); a root walk that runs out of fuel (non-termination) is a panic here -/
+def ufFind (g : UF) (x : Nat) : Outcome (UF × Nat) :=
+  match DSymVerif.Part.GPart.find g x with
+  | .ok r => .ok r
+  | .err => .panic
+  | .panic => .panic
+
+/-- `p.unite(&a, &b)` -/
+def ufUnite (g : UF) (a b : Nat) : Outcome UF :=
+  match DSymVerif.Part.GPart.unite g a b with
+  | .ok r => .ok r
+  | .err => .panic
+  | .panic => .panic
+
+/-- the `while let Some((d, e)) = queue.pop_front()` loop of `fold`:
+    `if p.find(&d) != p.find(&e) { p.unite(&d, &e); for i in 0..=dim { … } }` -/
+def foldLoopUF (s : MV) : Nat → Queue → UF → Outcome UF
+  | 0, _, _ => .panic
+  | _ + 1, [], g => .ok g
+  | fuel + 1, (d, e) :: q, g =>
+    match ufFind g d with
+    | .ok (g1, rd) =>
+      match ufFind g1 e with
+      | .ok (g2, re) =>
+        if rd ≠ re then
+          match ufUnite g2 d e with
+          | .ok g3 =>
+            match foldInner s d e (List.range (s.dim + 1)) q with
+            | some q' => foldLoopUF s fuel q' g3
+            | none => .err
+          | .err => .panic
+          | .panic => .panic
+        else foldLoopUF s fuel q g2
+      | .err => .panic
+      | .panic => .panic
+    | .err => .panic
+    | .panic => .panic
+
+/-- `self.fold(p0, d, e)`; `let mut p = p0.clone()` is a value copy -/
+def foldUF (s : MV) (g0 : UF) (d e : Nat) : Outcome UF :=
+  if d = 0 || e = 0 || !s.degreesMatch d e then .err
+  else foldLoopUF s (foldFuel s) [(d, e)] g0
+
+/-- `(2..=size).all(|d| self.fold(&p, 1, d).is_none())` with `p = Partition::new()` never
+    touched (every `fold` works on its own clone) -/
+def isMinimalLoopUF (s : MV) : List Nat → Outcome Bool
+  | [] => .ok true
+  | d :: ds =>
+    match foldUF s UF.new 1 d with
+    | .err => isMinimalLoopUF s ds
+    | .ok _ => .ok false
+    | .panic => .panic
+
+/-- `is_minimal()` -/
+def isMinimalUF (s : MV) : Outcome Bool := isMinimalLoopUF s (s.elements.drop 1)
+
+/-- `(2..=size).fold(Partition::new(), |p, d| ds.fold(&p, 1, d).unwrap_or(p))`: on `None` the
+    untouched `p` is kept (what `fold` interned or compressed lived in its clone) -/
+def foldAllUF (s : MV) : List Nat → UF → Outcome UF
+  | [], g => .ok g
+  | d :: ds, g =>
+    match foldUF s g 1 d with
+    | .ok g' => foldAllUF s ds g'
+    | .err => foldAllUF s ds g
+    | .panic => .panic
+
+/-- the numbering loop `for d in 1..=ds.size() { let e = p.find(&d); … }` on the union–find
+    (`find` goes through the `UnsafeCell`: the state is threaded) -/
+def numberLoopUF : UF → List Nat → NumState → Outcome NumState
+  | _, [], st => .ok st
+  | g, d :: ds, st =>
+    match ufFind g d with
+    | .ok (g1, e) =>
+      match st.src2img[e]? with
+      | none => .panic
+      | some x =>
+        let st1 : Outcome NumState :=
+          if x = 0 then
+            if st.next < st.img2src.size then
+              .ok { src2img := st.src2img.setIfInBounds e st.next,
+                    img2src := st.img2src.setIfInBounds st.next e, next := st.next + 1 }
+            else .panic
+          else .ok st
+        match st1 with
+        | .ok st1 =>
+          match st1.src2img[e]? with
+          | some y =>
+            if d < st1.src2img.size then
+              numberLoopUF g1 ds { st1 with src2img := st1.src2img.setIfInBounds d y }
+            else .panic
+          | none => .panic
+        | .err => .err
+        | .panic => .panic
+    | .err => .panic
+    | .panic => .panic
+
 /-- the view of a `PartialDSym` (`DSymData`): `m(i, i+1, d)` is `mPartial`.  `mAdj` maps a
     modelled panic of `mPartial` (orbit tables out of range) to `none`; the driver reports
     `PANIC` as the model's answer whenever `mPanics` holds, so nothing is defaulted silently. -/
@@ -288,15 +402,15 @@ def closuresInRange (ds : DSymData) (st : NumState) : Bool :=
       | some e => e < st.src2img.size
       | none => true
 
-/-- `minimal_image(ds)` -/
+/-- `minimal_image(ds)` (on the union–find) -/
 def minimalImage (ds : DSymData) : Outcome DSymData :=
   let s := ofSym ds
-  match isMinimal s with
+  match isMinimalUF s with
   | .ok true => asPartialDSym ds
   | .ok false =>
-    match foldAll s (s.elements.drop 1) Part.new with
+    match foldAllUF s (s.elements.drop 1) UF.new with
     | .ok p =>
-      match numberLoop p s.elements
+      match numberLoopUF p s.elements
           { src2img := Array.replicate (ds.size + 1) 0, img2src := Array.replicate (ds.size + 1) 0, next := 1 } with
       | .ok st =>
         if st.next < 1 then .panic          -- `next - 1` on usize
